@@ -15,7 +15,7 @@ Fixpoint fb_of (t : fb_table) (s : bytes) (base : Z) : option Z :=
 Definition verdict_eqb (a b : verdict) : bool :=
   match a, b with
   | VOk, VOk | VAnnotations, VAnnotations | VNameEmpty, VNameEmpty | VProxyProtocol, VProxyProtocol
-  | VBandwidthMode, VBandwidthMode | VLocalPort, VLocalPort | VHealthType, VHealthType
+  | VBandwidthMode, VBandwidthMode | VLocalPort, VLocalPort | VRemotePort, VRemotePort | VHealthType, VHealthType
   | VHealthPath, VHealthPath | VPlugin, VPlugin | VDomainsEmpty, VDomainsEmpty
   | VMultiplexer, VMultiplexer | VTcpmuxDisabled, VTcpmuxDisabled | VHTTPDisabled, VHTTPDisabled
   | VHTTPSDisabled, VHTTPSDisabled | VSubdomainDisabled, VSubdomainDisabled
